@@ -197,3 +197,57 @@ func VerifH_C27_requires_client_cert() {
 // of the signature type's family. Same harness as C03's TLS dispatch check.
 // verif: covers=accepted,rejected
 func VerifH_C27_handshake_signature_needs_matching_key() { VerifH_C03_tls_verify_handshake_signature() }
+
+// C27 on resumption: a client that verifies the server must not resume a cached
+// session whose original handshake skipped verification (no verified chains), whose
+// server certificate has expired, or whose certificate does not match the server
+// name; a client that skips verification may resume any of them. (TLS <= 1.2 path of
+// loadSession; hostname matching itself is decided under C09 and is a stub here.)
+type c27Cache struct {
+	s       *ClientSessionState
+	removed bool
+}
+
+func (c *c27Cache) Get(key string) (*ClientSessionState, bool) { return c.s, c.s != nil }
+func (c *c27Cache) Put(key string, s *ClientSessionState) {
+	if s == nil {
+		c.removed = true
+	}
+	c.s = s
+}
+
+// verif: covers=resumed,not-resumed
+func VerifH_C27_resumption_requires_verified_session() {
+	nameOK := vr.Bool("nameMatches")
+	vr.Stub("(*github.com/zmap/zcrypto/x509.Certificate).VerifyHostname", func(c *x509.Certificate, h string) error {
+		if nameOK {
+			return nil
+		}
+		return errors.New("model: name mismatch")
+	})
+	cert := &x509.Certificate{NotAfter: time.Unix(2000, 0)}
+	session := &ClientSessionState{vers: VersionTLS12, cipherSuite: TLS_RSA_WITH_AES_128_CBC_SHA, sessionTicket: []byte{7}, serverCertificates: []*x509.Certificate{cert}}
+	originalVerified := vr.Bool("originalHandshakeVerified")
+	if originalVerified {
+		session.verifiedChains = []x509.CertificateChain{{cert}}
+	}
+	expired := vr.Bool("certificateExpired")
+	now := int64(1000)
+	if expired {
+		now = 3000
+	}
+	cache := &c27Cache{s: session}
+	cfg := &Config{InsecureSkipVerify: vr.Bool("skipVerify"), ClientSessionCache: cache, ServerName: "host.example",
+		Time: func() time.Time { return time.Unix(now, 0) }}
+	hello := &clientHelloMsg{supportedVersions: []uint16{VersionTLS12}, cipherSuites: []uint16{TLS_RSA_WITH_AES_128_CBC_SHA}}
+	c := &Conn{config: cfg, conn: &mConn{}}
+	_, got, _, _ := c.loadSession(hello)
+	want := cfg.InsecureSkipVerify || (originalVerified && !expired && nameOK)
+	vr.Assert((got != nil) == want, "a session is resumed exactly when this configuration may trust the identity it was established with")
+	vr.Assert((len(hello.sessionTicket) != 0) == want, "and only then is its ticket offered")
+	if want {
+		vr.Cover("resumed")
+	} else {
+		vr.Cover("not-resumed")
+	}
+}
